@@ -748,6 +748,13 @@ void DenseMatrix::row_insert(const DenseMatrix &B, unsigned pos)
 {
     SYMENGINE_ASSERT(col_ == B.col_ and pos <= row_)
 
+    if (&B == this) {
+        // resizing *this would change the argument as well
+        DenseMatrix copy(B);
+        row_insert(copy, pos);
+        return;
+    }
+
     unsigned row = row_, col = col_;
     this->resize(row_ + B.row_, col_);
 
@@ -767,6 +774,13 @@ void DenseMatrix::row_insert(const DenseMatrix &B, unsigned pos)
 void DenseMatrix::col_insert(const DenseMatrix &B, unsigned pos)
 {
     SYMENGINE_ASSERT(row_ == B.row_ and pos <= col_)
+
+    if (&B == this) {
+        // resizing *this would change the argument as well
+        DenseMatrix copy(B);
+        col_insert(copy, pos);
+        return;
+    }
 
     unsigned row = row_, col = col_;
     this->resize(row_, col_ + B.col_);
